@@ -1,19 +1,50 @@
 // Contains queries for external contracts,
-use cosmwasm_std::{to_binary, Deps, QueryRequest, StdResult, Uint128, WasmQuery};
+use cosmwasm_std::{
+    from_binary, to_binary, to_vec, ContractResult, Deps, Empty, QueryRequest, StdError, StdResult,
+    SystemResult, Timestamp, Uint128, WasmQuery,
+};
+use schemars::JsonSchema;
+use serde::{Deserialize, Serialize};
 
 use margined_perp::margined_pricefeed::QueryMsg;
 
 use crate::state::{read_config, Config};
+
+/// latest round as answered by the price feed's `GetPrice`
+#[derive(Serialize, Deserialize, Clone, Debug, PartialEq, Eq, JsonSchema)]
+pub struct PriceData {
+    pub round_id: Uint128,
+    pub price: Uint128,
+    pub timestamp: Timestamp,
+}
 
 // returns the underlying price provided by an oracle
 pub fn query_underlying_price(deps: &Deps) -> StdResult<Uint128> {
     let config: Config = read_config(deps.storage)?;
     let key: String = config.base_asset;
 
-    deps.querier.query(&QueryRequest::Wasm(WasmQuery::Smart {
+    let request: QueryRequest<Empty> = QueryRequest::Wasm(WasmQuery::Smart {
         contract_addr: config.pricefeed.to_string(),
         msg: to_binary(&QueryMsg::GetPrice { key })?,
-    }))
+    });
+
+    // the price feed answers `GetPrice` with the whole latest round (`PriceData`), simpler
+    // feeds answer with the bare price: accept both
+    let raw = to_vec(&request)?;
+    match deps.querier.raw_query(&raw) {
+        SystemResult::Ok(ContractResult::Ok(value)) => match from_binary::<PriceData>(&value) {
+            Ok(data) => Ok(data.price),
+            Err(_) => from_binary::<Uint128>(&value),
+        },
+        SystemResult::Ok(ContractResult::Err(err)) => Err(StdError::generic_err(format!(
+            "Querier contract error: {}",
+            err
+        ))),
+        SystemResult::Err(err) => Err(StdError::generic_err(format!(
+            "Querier system error: {}",
+            err
+        ))),
+    }
 }
 
 // returns the underlying twap price provided by an oracle
